@@ -52,6 +52,22 @@ func c15Pair(seed uint64, shape string) *lib.Pair {
 		p.New.PutFile(last, append(append([]byte(nil), olds[0][:lib.BS]...), olds[n-1][:lib.BS]...))
 		p.Feat["equal-shares"] = true
 		return p
+	case "samebase":
+		// many old files with the SAME base name in different directories holding the same blocks, and new files with
+		// that base name at paths the old build does not have: whichever old file a block range names must not depend
+		// on the iteration order of any map
+		p := &lib.Pair{Old: lib.NewBuild(), New: lib.NewBuild(), Feat: map[string]bool{}}
+		d := lib.RandomBytes(int64(r.Range(2, 4))*lib.BS+int64(r.Intn(3000)), r.Uint64())
+		for i := 0; i < 16; i++ {
+			dd := append([]byte(nil), d...)
+			dd[len(dd)-1-i] ^= 0x01 // the last block differs per copy, the others are shared
+			p.Old.PutFile(fmt.Sprintf("dir%02d/lib.bin", i), dd)
+		}
+		p.New.PutFile("moved/lib.bin", d)
+		p.New.PutFile("other/place/lib.bin", append(append([]byte(nil), d...), lib.RandomBytes(100, r.Uint64())...))
+		p.New.PutFile("dir03/lib.bin", p.Old.E["dir03/lib.bin"].Data)
+		p.Feat["same-base-name-in-many-dirs"] = true
+		return p
 	case "fragmented":
 		// heavily fragmented similarity: the new file is the old one cut into small pieces and shuffled, so every
 		// scanner block yields far more matches than a worker's result channel holds (256)
@@ -118,7 +134,7 @@ func c15Cases(tier string, seed uint64, flavor string) []lib.Case {
 		}
 	}
 	comps := []lib.Comp{{Algo: "none"}, {Algo: "gzip", Quality: 1}, {Algo: "brotli", Quality: 1}, {Algo: "none"}}
-	shapes := []string{"generic", "shares", "tiny", "edges", "bigfresh", "shares", "fragmented", "generic"}
+	shapes := []string{"generic", "shares", "tiny", "edges", "bigfresh", "shares", "fragmented", "samebase"}
 	var cases []lib.Case
 	for i := 0; i < n; i++ {
 		s := c15Spec{PairSeed: lib.Mix(seed, 15, uint64(i)), Shape: shapes[i%len(shapes)], Comp: comps[i%len(comps)], Runs: runs}
